@@ -22,6 +22,13 @@ type State struct {
 	lastNow *Term
 	model   Model // a model of pc (counterexample cache), or nil
 	views   map[ObjID]bool // read-only array copies made by slice-to-array-pointer conversions
+	parked  []*parkedG     // goroutines blocked under the canonical schedule (sched.go)
+	gseq    int            // goroutines spawned so far
+	gdepth  int            // > 0 while a goroutine other than main is running
+	socks   []ObjID        // sockets opened so far (sockets.go)
+	choice  []int          // program-level choices made with nondetEnum (states with different choices never merge)
+	ranges  map[*Term]urange // unsigned ranges implied by assumed comparisons (ranges.go); copy-on-write
+	rangesShared bool
 }
 
 type regionRec struct {
@@ -52,7 +59,15 @@ func (s *State) fork() *State {
 		observe: s.observe[:len(s.observe):len(s.observe)],
 		nowSeq:  s.nowSeq,
 		lastNow: s.lastNow,
+		parked:  s.parked[:len(s.parked):len(s.parked)],
+		gseq:    s.gseq,
+		gdepth:  s.gdepth,
+		socks:   s.socks[:len(s.socks):len(s.socks)],
+		choice:  s.choice[:len(s.choice):len(s.choice)],
+		ranges:  s.ranges,
+		rangesShared: true,
 	}
+	s.rangesShared = true
 	if len(s.views) > 0 {
 		n.views = make(map[ObjID]bool, len(s.views))
 		for k, v := range s.views {
@@ -88,6 +103,7 @@ func (s *State) assume(t *Term) {
 		s.model = nil
 	}
 	s.pc = append(s.pc[:len(s.pc):len(s.pc)], t)
+	s.noteAssume(t)
 }
 
 func (e *Engine) alloc(s *State, v Value) ObjID {
@@ -482,6 +498,17 @@ func (e *Engine) mergeStates(a, b *State, extra func(g *Term) bool) (*State, boo
 	if a.nowSeq != b.nowSeq || a.lastNow != b.lastNow {
 		return nil, false
 	}
+	if len(a.choice) != len(b.choice) {
+		return nil, false
+	}
+	for i := range a.choice {
+		if a.choice[i] != b.choice[i] {
+			return nil, false
+		}
+	}
+	if a.gseq != b.gseq || a.gdepth != b.gdepth || len(a.socks) != len(b.socks) || !parkedEqual(a.parked, b.parked) {
+		return nil, false
+	}
 	for k, v := range a.tags {
 		if b.tags[k] != v {
 			return nil, false
@@ -553,6 +580,19 @@ func (e *Engine) mergeStates(a, b *State, extra func(g *Term) bool) (*State, boo
 		lastNow: a.lastNow,
 		model:   a.model,
 		views:   a.views,
+		parked:  a.parked,
+		gseq:    a.gseq,
+		gdepth:  a.gdepth,
+		socks:   a.socks,
+		choice:  a.choice,
+	}
+	if len(a.ranges) > 0 && len(b.ranges) > 0 {
+		out.ranges = map[*Term]urange{}
+		for k, ra := range a.ranges {
+			if rb, ok := b.ranges[k]; ok {
+				out.ranges[k] = urange{min(ra.lo, rb.lo), max(ra.hi, rb.hi)}
+			}
+		}
 	}
 	for k, v := range b.views {
 		if out.views == nil {
@@ -732,6 +772,8 @@ type Frame struct {
 	defers    []deferred
 	depth     int
 	entryNext ObjID
+	gtop      bool // top-level frame of a goroutine (may park)
+	gid       int
 }
 
 func (f *Frame) clone() *Frame {
